@@ -117,6 +117,13 @@ pub struct CliCase {
     /// spelling of the output path: 0 absolute, 1 relative to the working directory (a bare name), 2 `./name`
     #[serde(default)]
     pub rel_path: u8,
+    /// spelling of the numeric values (seed, opcode counts, samples): 0 plain, 1 leading zeros, 2 leading plus sign
+    #[serde(default)]
+    pub num_style: u8,
+    /// a switch that is off is passed as `--switch=<word>` with a word that means "off" (0 = not passed at all);
+    /// the tool may refuse that spelling, but must not read it as "on"
+    #[serde(default)]
+    pub off_switch_word: u8,
 }
 
 fn mutk_by_name(n: &str) -> Option<MutK> {
@@ -182,6 +189,17 @@ impl CliCase {
         v
     }
 
+    /// a number as the case spells it
+    fn num(&self, v: impl std::fmt::Display) -> String {
+        match self.num_style % 3 {
+            1 => format!("00{}", v),
+            2 => format!("+{}", v),
+            _ => format!("{}", v),
+        }
+    }
+
+    pub const OFF_WORDS: [&'static str; 8] = ["", "false", "no", "0", "off", "disabled", "none", "never"];
+
     /// `--name value` or, with `eq_form`, `--name=value`
     fn opt(&self, a: &mut Vec<String>, name: &str, value: String) {
         if self.eq_form && name.starts_with("--") {
@@ -197,13 +215,13 @@ impl CliCase {
             self.opt(&mut a, if self.short_opts { "-p" } else { "--protocol" }, p.to_string());
         }
         if let Some(s) = self.seed {
-            self.opt(&mut a, "--seed", s.to_string());
+            self.opt(&mut a, "--seed", self.num(s));
         }
         if let Some(m) = self.min {
-            self.opt(&mut a, "--min-opcodes", m.to_string());
+            self.opt(&mut a, "--min-opcodes", self.num(m));
         }
         if let Some(m) = self.max {
-            self.opt(&mut a, "--max-opcodes", m.to_string());
+            self.opt(&mut a, "--max-opcodes", self.num(m));
         }
         if let MutSpec::Names { names, repeated_flags } = &self.mutators {
             if *repeated_flags {
@@ -218,14 +236,13 @@ impl CliCase {
         if let Some(r) = &self.rate {
             self.opt(&mut a, "--mutation-rate", r.clone());
         }
-        if self.unsafe_mutations {
-            a.push("--unsafe-mutations".into());
-        }
-        if self.allow_ext {
-            a.push("--allow-ext".into());
-        }
-        if self.allow_buffer {
-            a.push("--allow-buffer".into());
+        let w = Self::OFF_WORDS[self.off_switch_word as usize % Self::OFF_WORDS.len()];
+        for (on, flag) in [(self.unsafe_mutations, "--unsafe-mutations"), (self.allow_ext, "--allow-ext"), (self.allow_buffer, "--allow-buffer")] {
+            if on {
+                a.push(flag.into());
+            } else if !w.is_empty() && matches!(self.via, Via::Cli) {
+                a.push(format!("{}={}", flag, w));
+            }
         }
         a
     }
@@ -363,7 +380,7 @@ pub fn invoke(ctx: &Ctx, cli: &str, c: &CliCase, dir: &str) -> Result<RunOut, St
                     a = b;
                 }
             }
-            cmd.env("INPUT_ARGS", a.join(" "));
+            cmd.env("INPUT_ARGS", a.join(if c.seed.map_or(false, |s| s % 3 == 1) { "\n" } else { " " }));
         }
         Via::Wrapper { sep, truthy } => {
             cmd = Command::new("bash");
@@ -381,20 +398,20 @@ pub fn invoke(ctx: &Ctx, cli: &str, c: &CliCase, dir: &str) -> Result<RunOut, St
                 }
                 Mode::Batch { samples, .. } => {
                     cmd.env("INPUT_OUTPUT_DIR", &arg_dir);
-                    cmd.env("INPUT_SAMPLES", samples.to_string());
+                    cmd.env("INPUT_SAMPLES", c.num(samples));
                 }
             }
             if let Some(p) = c.protocol {
                 cmd.env("INPUT_PROTOCOL", p.to_string());
             }
             if let Some(s) = c.seed {
-                cmd.env("INPUT_SEED", s.to_string());
+                cmd.env("INPUT_SEED", c.num(s));
             }
             if let Some(m) = c.min {
-                cmd.env("INPUT_MIN_OPCODES", m.to_string());
+                cmd.env("INPUT_MIN_OPCODES", c.num(m));
             }
             if let Some(m) = c.max {
-                cmd.env("INPUT_MAX_OPCODES", m.to_string());
+                cmd.env("INPUT_MAX_OPCODES", c.num(m));
             }
             if let MutSpec::Names { names, .. } = &c.mutators {
                 cmd.env("INPUT_MUTATORS", names.join(sep));
@@ -438,6 +455,14 @@ pub fn check_cli(ctx: &Ctx, cli: &str, c: &CliCase, idx: usize, st: &mut Stats) 
             Via::WrapperArgs => "wrapper-args",
         };
         st.label(&format!("via={}", via));
+        if c.off_switch_word as usize % CliCase::OFF_WORDS.len() != 0 && matches!(c.via, Via::Cli) && !(c.unsafe_mutations && c.allow_ext && c.allow_buffer) {
+            if ro.status == Some(2) {
+                // clap's usage error: the tool does not take a value for its switches
+                st.label("`--switch=<off word>` refused with a usage error");
+                return Ok(());
+            }
+            st.label("`--switch=<off word>` accepted");
+        }
         let accept = c.acceptable();
         match &c.mode {
             Mode::Single if c.fault_devfull && std::path::Path::new("/dev/full").exists() => {
@@ -593,9 +618,9 @@ pub fn cli_strategy(wrapper: bool) -> BoxedStrategy<CliCase> {
     };
     (
         (proptest::option::weighted(0.6, 0u8..6), proptest::option::weighted(0.9, any::<u64>()), range, names),
-        (rate, any::<bool>(), any::<bool>(), any::<bool>(), mode, proptest::sample::select(vec![1u8, 2, 5, 16]), via, proptest::bool::weighted(0.3), proptest::bool::weighted(0.25), (any::<bool>(), proptest::bool::weighted(0.06), proptest::bool::weighted(0.3), prop_oneof![3 => Just(0u8), 1 => Just(1u8), 1 => Just(2u8)])),
+        (rate, any::<bool>(), any::<bool>(), any::<bool>(), mode, proptest::sample::select(vec![1u8, 2, 5, 16]), via, proptest::bool::weighted(0.3), proptest::bool::weighted(0.25), (any::<bool>(), proptest::bool::weighted(0.06), proptest::bool::weighted(0.3), prop_oneof![3 => Just(0u8), 1 => Just(1u8), 1 => Just(2u8)], prop_oneof![4 => Just(0u8), 1 => Just(1u8), 1 => Just(2u8)], prop_oneof![5 => Just(0u8), 2 => 1u8..8])),
     )
-        .prop_map(|((protocol, seed, (min, max), mutators), (rate, u, e, b, mode, rayon_threads, via, short_opts, preexisting, (fault_devfull, single_fault, eq_form, rel_path)))| {
+        .prop_map(|((protocol, seed, (min, max), mutators), (rate, u, e, b, mode, rayon_threads, via, short_opts, preexisting, (fault_devfull, single_fault, eq_form, rel_path, num_style, off_switch_word)))| {
             let single = mode_is_single(&mode);
             CliCase {
             protocol,
@@ -617,6 +642,8 @@ pub fn cli_strategy(wrapper: bool) -> BoxedStrategy<CliCase> {
             preexisting: preexisting && !(single && single_fault),
             eq_form,
             rel_path,
+            num_style,
+            off_switch_word,
             }
         })
         .boxed()
@@ -839,6 +866,22 @@ pub fn run_c13(ctx: &Ctx) -> Outcome {
     if let Some(((_, c), f)) = found {
         out.violation = Some(Violation { fail: f, case: json!({"cli_case": c}) });
         return out;
+    }
+    {
+        let mut st = Stats::default();
+        let r = check_cli_many_faults(ctx, &cli, &mut st);
+        out.stats.merge(st);
+        match r {
+            Ok(()) => {}
+            Err(f) if f.sig.starts_with("harness:") => {
+                out.inconclusive = Some(f.msg);
+                return out;
+            }
+            Err(f) => {
+                out.violation = Some(Violation { fail: f, case: json!({"cli_many_faults": true}) });
+                return out;
+            }
+        }
     }
     // Python
     match build_python(ctx) {
@@ -1227,6 +1270,47 @@ pub fn check_python_seed_probe(ctx: &Ctx, pkg_parent: &str, st: &mut Stats) -> R
         }
         st.label("python: unusual seed accepted and deterministic");
         st.nontrivial(util::digest_str(&format!("{}{}", q["seed_expr"], q["mutator"])));
+    }
+    Ok(())
+}
+
+/// batch runs in which 255, 256 and 512 samples cannot be written (directories in the way): the exit status is
+/// non-zero however many failed, and every writable sample equals the library's bytes
+pub fn check_cli_many_faults(ctx: &Ctx, cli: &str, st: &mut Stats) -> Result<(), Fail> {
+    for (k, (n, blocked)) in [(300usize, 255usize), (300, 256), (520, 512)].into_iter().enumerate() {
+        let dir = format!("{}/work/c13-mf-{}-{}", ctx.verif_dir, std::process::id(), k);
+        let _ = std::fs::remove_dir_all(&dir);
+        let outdir = format!("{}/{}", dir, OUT_DIR);
+        for i in 0..blocked {
+            std::fs::create_dir_all(format!("{}/{}.pkl", outdir, i)).map_err(|e| Fail::new("harness:invoke", e.to_string()))?;
+        }
+        let seed = ctx.seed.wrapping_mul(977).wrapping_add(k as u64);
+        let out = Command::new(cli)
+            .args(["--dir", &outdir, "--samples", &n.to_string(), "--seed", &seed.to_string(), "--protocol", &((k % 6).to_string()), "--min-opcodes", "3", "--max-opcodes", "12"])
+            .env("RAYON_NUM_THREADS", "8")
+            .output()
+            .map_err(|e| Fail::new("harness:invoke", e.to_string()))?;
+        let mut c = GenCase::default_for((k % 6) as u8, seed);
+        c.min_opcodes = 3;
+        c.max_opcodes = 12;
+        let want = c.run().map_err(|e| Fail::new("harness:reference", e.to_string()))?;
+        let mut bad_file = None;
+        for i in blocked..n {
+            if std::fs::read(format!("{}/{}.pkl", outdir, i)).ok().as_deref() != Some(want.as_slice()) {
+                bad_file = Some(i);
+                break;
+            }
+        }
+        let _ = std::fs::remove_dir_all(&dir);
+        st.evaluations += 1;
+        st.label("batch with hundreds of unwritable samples");
+        if out.status.code() == Some(0) {
+            return ctx.fail(st, Fail::new("cli:batch:many-faults-ignored", format!("batch of {} samples of which {} could not be written (directories in the way) exited 0", n, blocked)));
+        }
+        if let Some(i) = bad_file {
+            return ctx.fail(st, Fail::new("cli:batch:bytes", format!("batch of {} samples with {} unwritable ones: {}.pkl is missing or differs from the library's bytes", n, blocked, i)));
+        }
+        st.nontrivial(util::digest_str(&format!("mf{}{}", n, blocked)));
     }
     Ok(())
 }
